@@ -218,6 +218,7 @@ inductive Sp where
   | dct (xs : List Sp)
   | lst (x : Sp)                        -- `[x]` over a two-element target
   | frame (x : Sp)                      -- `Spec(x)`
+  | first (x : Sp)                      -- `First(x)` / `Iter().first(x)` as a tuple step: `x` is the key, run on the items
   | coal (xs : List Sp) (skip : Option (List String)) (dflt : Bool)
   deriving Repr
 
@@ -263,6 +264,7 @@ def eval (E : EvalEnv) : Sp → Outc
       | .val => eval E x                             -- second item
       | .exc o => .exc o)
   | .frame x => frameG E (eval E x)
+  | .first x => frameG E (eval E x)      -- `Spec(x).glom(item, scope=S)`: a nested `_glom` on the first item
   | .coal xs skip dflt => frameG E (evalCoal E xs (skip.getD E.F.coalesceSkipDefault) dflt)
 /-- the `for subspec in spec` loops of `_handle_tuple` / `_handle_dict` -/
 def evalSeq (E : EvalEnv) : List Sp → Outc
